@@ -936,3 +936,21 @@ Fixpoint scopes_eqb (a b : list (string * string * Z)) : bool :=
   | (f, fn, n) :: r, (f', fn', n') :: r' => String.eqb f f' && String.eqb fn fn' && Z.eqb n n' && scopes_eqb r r'
   | _, _ => false
   end.
+
+(* ---- the column-level span model refines the id-level one of IngestRobust.v ---- *)
+Definition cop_idx (o : cop) : bool := match o with CApp _ _ i | CSize _ i => i end.
+Definition has_idx (os : list cop) : bool := existsb cop_idx os.
+Definition abs_span (s : span_ev) : span_in :=
+  {| si_tid := se_tid s; si_sid := se_sid s; si_keys := se_keys s; si_bytes := se_bytes s; si_abytes := 0 |}.
+(* what a column-level event is at the id level: a span with fewer values than keys is a decoder-side panic *)
+Definition abs_event (ev : col_event) : span_event :=
+  match ev with
+  | CvSpan s =>
+      if negb ((se_tid s =? 16) && (se_sid s =? 8))%N then EvSpan (abs_span s)
+      else if Nat.ltb (se_vals s) (se_keys s) then EvPanic else EvSpan (abs_span s)
+  | CvPanic => EvPanic
+  | CvErr t => EvErr (if t then e400 "decoder" else e_plain "decoder")
+  end.
+(* the shape of onSpan the refinement needs: width check first, val[i] only inside the loop over the keys *)
+Definition handler_shape_ok (h : handler_prog) : bool :=
+  hp_width_check h && hp_flush_resets h && negb (has_idx (hp_once h)) && has_idx (hp_loop h).
